@@ -147,6 +147,7 @@ class AGraph(Equation):
                 str(equation)
             )
 
+            self._simplified_command_array = np.empty([0, 3], dtype=int)
             self.set_local_optimization_params(constants)
             if len(constants) > 0:
                 self._needs_opt = True
